@@ -1087,6 +1087,79 @@ def search_class_choice(ctx: Ctx) -> SearchResult:
 
 
 @guarded_search
+def search_entrypath(ctx: Ctx) -> SearchResult:
+	"""The EntryPath algebra on the paths of random trees (plus identify with large indexes) against the element list the
+	harness's own tree walk knows for each path: first / last / parent_tag / shift / joined / identify / de_identify /
+	contains / consists_of_only / elements / valid / escaped_origin / relativefy."""
+	from rogw.tranp.syntax.ast.entry import EntryOfDict
+	from rogw.tranp.syntax.ast.path import EntryPath
+
+	rng = ctx.sub_rng('entrypath')
+	res = SearchResult('EntryPath algebra vs the element lists of the own tree walk')
+	seen = set()
+	dl = Deadline(ctx, 'search_entrypath', 10, 60)
+
+	def split_el(el: str) -> tuple[str, int]:
+		return (el[:el.index('[')], int(el[el.index('[') + 1:-1])) if el.endswith(']') else (el, -1)
+
+	for i in range(ctx.scale(120, 1500)):
+		if dl.over():
+			break
+		walk = trees.walk_entries(EntryOfDict(trees.gen_dict_tree(rng, 2 + i % 4, 2 + i % 6)))
+		p = rng.choice(walk)[0]
+		if rng.random() < 0.3:
+			p = f"{p}.{rng.choice(trees.TAG_POOL)}[{rng.choice([0, 9, 10, 99, 100, 12345])}]"
+		els = p.split('.')
+		tags = [split_el(e)[0] for e in els]
+		k = rng.choice([-9, -2, -1, 0, 1, 2, 9])
+		rel = rng.choice(['x', 'a[1].b', ''])
+		tag = rng.choice([*tags, 'zz', 'a'])
+		only = rng.sample(sorted(set(tags) | {'a', 'b'}), rng.randint(0, len(set(tags) | {'a', 'b'})))
+		cut = rng.randint(1, len(els))
+		starts = '.'.join(els[:cut])
+		bad = None
+		try:
+			with Budget():
+				ep = EntryPath(p)
+				checks: list[tuple[str, Any, Any]] = [
+					('valid', ep.valid, True),
+					('elements', ep.elements, els),
+					('first', ep.first, split_el(els[0])),
+					('last', ep.last, split_el(els[-1])),
+					('first_tag', ep.first_tag, tags[0]),
+					('last_tag', ep.last_tag, tags[-1]),
+					(f'shift({k})', ep.shift(k).origin, '.'.join(els[k:] if k > 0 else els[:k] if k < 0 else els)),
+					(f'joined({rel!r})', ep.joined(rel), p + '.' + rel if rel else p),
+					(f'identify({tag!r}, {abs(k)})', EntryPath.identify(p, tag, abs(k)).origin, f'{p}.{tag}[{abs(k)}]'),
+					(f'join({tag!r})', EntryPath.join(p, tag).origin, f'{p}.{tag}'),
+					('de_identify', ep.de_identify().origin, '.'.join(tags)),
+					(f'contains({tag!r})', ep.contains(tag), tag in tags),
+					(f'consists_of_only({only})', ep.consists_of_only(*only), all(t in only for t in tags)),
+					('escaped_origin', ep.escaped_origin, p.replace('.', '\\.').replace('[', '\\[').replace(']', '\\]')),
+				]
+				if len(els) >= 2:
+					checks.append(('parent_tag', ep.parent_tag, tags[-2]))
+				# relativefy is exact when the string `starts` does not occur again to its right (C10.relativefy_exact)
+				if cut < len(els) and starts not in p[len(starts):]:
+					checks.append((f'relativefy({starts!r})', ep.relativefy(starts).origin, '.'.join(els[cut:])))
+				for name, got, want in checks:
+					if got != want:
+						bad = f'EntryPath({p!r}).{name} = {got!r}, the element list {els} says {want!r}'
+						break
+		except Exception as e:  # noqa: BLE001 - these calls succeed on every well-formed path
+			bad = f'EntryPath({p!r}) (k={k}, tag={tag!r}, starts={starts!r}) raised {exc_enum(e)}: {str(e)[:160]}'
+		res.cases += 1
+		seen.add((p, k, tag))
+		if bad:
+			res.findings.append(Finding(key='entrypath-law', what=bad, replay={'path': p, 'k': k, 'tag': tag, 'only': only, 'starts': starts}))
+			break
+		if len(res.samples) < 2:
+			res.samples.append({'path': p, 'k': k})
+	res.distinct = len(seen)
+	return res
+
+
+@guarded_search
 def search_dsn(ctx: Ctx) -> SearchResult:
 	"""The DSN functions under EntryPath against Python's own split / slice / join on the same string (dsn.py), and the
 	algebraic laws between them (left + right re-join to the whole, shift = left / right, root / parent = elements)."""
@@ -1251,6 +1324,12 @@ def search_queries(ctx: Ctx) -> SearchResult:
 
 		def expect(kind: str, p: str, tag: str) -> str:
 			es = elems(p)
+			if kind == 'id':
+				return f'ok {paths.index(p) if p in pset else -1}'
+			if kind == 'exists':
+				return f'ok {p in pset}'
+			if kind == 'by':
+				return f'ok {p}' if p in pset else 'Errors.NodeNotFound'
 			if kind == 'children':
 				return 'ok ' + ','.join(q for q in paths if q.startswith(p + '.') and len(elems(q)) == len(es) + 1)
 			if kind == 'siblings':
@@ -1271,8 +1350,10 @@ def search_queries(ctx: Ctx) -> SearchResult:
 		history: list[tuple[str, str, str]] = []
 		bad = None
 		for _ in range(40):
-			kind = rng.choice(['children', 'siblings', 'parent', 'ancestor', 'ancestor'])
+			kind = rng.choice(['children', 'siblings', 'parent', 'ancestor', 'ancestor', 'id', 'exists', 'by'])
 			p = rng.choice(paths)
+			if kind in ('id', 'exists', 'by') and rng.random() < 0.3:
+				p = mutate_path(rng, p, tags_all)  # mostly a path outside the tree: id -1, exists False, by NodeNotFound
 			tag = tag_of(rng.choice(elems(p))) if rng.random() < 0.8 else rng.choice(tags_all)
 			history.append((kind, p, tag))
 			try:
@@ -1283,6 +1364,12 @@ def search_queries(ctx: Ctx) -> SearchResult:
 						got = 'ok ' + ','.join(n.full_path for n in nodes.siblings(p))
 					elif kind == 'parent':
 						got = 'ok ' + nodes.parent(p).full_path
+					elif kind == 'id':
+						got = f'ok {nodes.id(p)}'
+					elif kind == 'exists':
+						got = f'ok {nodes.exists(p)}'
+					elif kind == 'by':
+						got = 'ok ' + nodes.by(p).full_path
 					else:
 						got = 'ok ' + nodes.ancestor(p, tag).full_path
 			except Exception as e:  # noqa: BLE001 - including CaseTimeout
@@ -1776,7 +1863,7 @@ def run(ctx: Ctx) -> int:
 	with ctx.timed('correspondence'):
 		streams = [stream_corpus(ctx), stream_path_algebra(ctx), stream_random(ctx), stream_real(ctx), stream_shape(ctx)]
 	with ctx.timed('search'):
-		searches = [search_laws(ctx), search_dsn(ctx), search_class_choice(ctx), search_queries(ctx), search_expand(ctx), search_expand_real(ctx), search_resolve_order(ctx)]
+		searches = [search_laws(ctx), search_entrypath(ctx), search_dsn(ctx), search_class_choice(ctx), search_queries(ctx), search_expand(ctx), search_expand_real(ctx), search_resolve_order(ctx)]
 	if ALPHABET_MISSES and translate_ok:
 		# a real parse tree carries a name the generated alphabet does not list: the tie behind expand_spec_grammar is broken
 		translate_ok, translate_msg = False, f'entry names of real parse trees outside Generated/TagAlphabet.lean: {sorted(ALPHABET_MISSES)[:10]}'
